@@ -102,7 +102,7 @@ def run_harnesses(crate_dir, specs, unit, target_name, jobs=None, timeout=3600, 
     return obs, " ".join(cmd[:12]) + " ... --harness <each>", out
 
 
-def playback(crate_dir, harness, target_name, timeout=900):
+def playback(crate_dir, harness, target_name, timeout=240):
     """Re-run one failing harness alone asking Kani for concrete values."""
     target = os.path.join(CACHE, "target-" + target_name)
     cmd = ["cargo", "kani"] + KANI_FLAGS + ["-Z", "concrete-playback", "--concrete-playback=print",
